@@ -14,6 +14,7 @@ type regSite struct {
 	Kind    string // LeafDecoder WrapperDecoder MultiCauseDecoder LeafEncoder WrapperEncoder WrapperEncoderWithMessageType MultiCauseEncoder
 	Fn      *ssa.Function
 	KeyType types.Type // type passed to GetTypeKey when statically known
+	KeyConst string    // constant key string (legacy type names)
 	In      *ssa.Function
 }
 
@@ -57,6 +58,24 @@ func (w *World) registrationSites() []regSite {
 				}
 				rs := regSite{Kind: strings.TrimPrefix(name, "Register"), Fn: target, In: fn}
 				rs.KeyType = keyTypeOf(call.Call.Args[0])
+				if rs.KeyType == nil {
+					var a ssa.Value = call.Call.Args[0]
+					for i := 0; i < 4; i++ {
+						switch y := a.(type) {
+						case *ssa.ChangeType:
+							a = y.X
+						case *ssa.Convert:
+							a = y.X
+						}
+					}
+					if c, ok := a.(*ssa.Const); ok && c.Value != nil {
+						rs.KeyConst = strings.Trim(c.Value.ExactString(), "\"")
+					} else if g, ok := a.(*ssa.UnOp); ok {
+						if gl, ok := g.X.(*ssa.Global); ok {
+							rs.KeyConst = "var:" + gl.Name()
+						}
+					}
+				}
 				out = append(out, rs)
 			}
 		}
@@ -203,6 +222,33 @@ func (w *World) sweepsFor(prop string, cfg *RunCfg) []workItem {
 				continue // planned through its contract
 			}
 			items = append(items, workItem{fn: fn, why: "redact.Safe sink sweep", opts: VerifyOpts{Props: map[string]bool{"C03": true}, Safety: false, ExtraRequires: ifaceParamsNonNil}})
+		}
+		for _, fn := range w.redactableConvFuncs() {
+			if c := w.Contracts[fn]; c != nil && contractMentions(c, "C03") {
+				continue
+			}
+			if fn.Name() == "finishDisplay" {
+				// the rendering path (is the final buffer rsafe?) is outside the C03 claim; the
+				// C06 check requires the buffer to be well-formed there
+				continue
+			}
+			dup := false
+			for _, it := range items {
+				if it.fn == fn {
+					dup = true
+				}
+			}
+			if !dup {
+				items = append(items, workItem{fn: fn, why: "redactable conversion sweep", opts: VerifyOpts{Props: map[string]bool{"C03": true}, Safety: false, ExtraRequires: ifaceParamsNonNil}})
+			}
+		}
+	case "C06":
+		// conversion sweep: every function that converts text to a redactable type
+		for _, fn := range w.redactableConvFuncs() {
+			if c := w.Contracts[fn]; c != nil && contractMentions(c, "C06") {
+				continue
+			}
+			items = append(items, workItem{fn: fn, why: "redactable conversion sweep", opts: VerifyOpts{Props: map[string]bool{"C06": true}, Safety: false, ExtraRequires: ifaceParamsNonNil, OnlyKinds: map[string]bool{"redactable": true}}})
 		}
 	case "C18":
 		// frame sweep: every function of the module's non-test packages is executed symbolically
@@ -484,6 +530,46 @@ func (w *World) frameSweepFuncs() []*ssa.Function {
 			continue
 		}
 		out = append(out, fn)
+	}
+	sort.Slice(out, func(i, j int) bool { return out[i].String() < out[j].String() })
+	return out
+}
+
+// redactableConvFuncs: functions of the module (non-test packages) that convert to a redactable type.
+func (w *World) redactableConvFuncs() []*ssa.Function {
+	var out []*ssa.Function
+	for fn := range w.AllFuncs {
+		pkg := fn.Pkg
+		if pkg == nil && fn.Parent() != nil {
+			pkg = fn.Parent().Pkg
+		}
+		if pkg == nil || !w.InModule(pkg.Pkg) || w.isGenerated(fn) || len(fn.Blocks) == 0 {
+			continue
+		}
+		p := pkg.Pkg.Path()
+		if strings.Contains(p, "testutils") || strings.Contains(p, "fmttests") {
+			continue
+		}
+		if pos := w.Fset.Position(fn.Pos()); strings.HasSuffix(pos.Filename, "_test.go") || pos.Filename == "" {
+			continue
+		}
+		if strings.HasPrefix(fn.Name(), "init") {
+			continue
+		}
+		has := false
+		for _, b := range fn.Blocks {
+			for _, ins := range b.Instrs {
+				if ct, ok := ins.(*ssa.ChangeType); ok {
+					tn := ct.Type().String()
+					if (strings.HasSuffix(tn, "redact.RedactableString") || strings.HasSuffix(tn, "redact.RedactableBytes")) && ct.X.Type().String() != tn {
+						has = true
+					}
+				}
+			}
+		}
+		if has {
+			out = append(out, fn)
+		}
 	}
 	sort.Slice(out, func(i, j int) bool { return out[i].String() < out[j].String() })
 	return out
